@@ -8,7 +8,7 @@ TMP=$(mktemp -d /tmp/trypatch_XXXXXX)
 cp -r /repo/src "$TMP/src"
 rm -rf "$TMP/src/osyris.egg-info"
 ( cd "$TMP" && git apply -p1 "$PATCH" ) || { echo "patch does not apply"; rm -rf "$TMP"; exit 3; }
-OSYRIS_SRC="$TMP/src" /venv/bin/python /verif/run.py "$ID" "$@" 2>&1 | grep -v auto_activate_base
+VERIF_EVIDENCE_DIR="${VERIF_EVIDENCE_DIR:-$TMP/ev}" OSYRIS_SRC="$TMP/src" /venv/bin/python /verif/run.py "$ID" "$@" 2>&1 | grep -v auto_activate_base
 RC=${PIPESTATUS[0]}
 rm -rf "$TMP"
 exit $RC
